@@ -538,6 +538,12 @@ impl<'a> EvalState<'a> {
         if self.checked_vars.iter().contains(&String::from(v)) {
             return Err(SvgdxError::CircularRefError(v.to_owned()));
         }
+        // each level of variable indirection is a level of recursion here
+        if self.checked_vars.len() >= MAX_EXPR_DEPTH {
+            return Err(SvgdxError::ParseError(format!(
+                "Variable '{v}' is nested more than {MAX_EXPR_DEPTH} levels deep"
+            )));
+        }
         self.checked_vars.push(v.to_string());
         let result = if let Some(inner) = self.context.get_var(v) {
             let tokens = tokenize(&inner)?;
